@@ -389,11 +389,15 @@ impl Compiler {
                 } = inner
                 {
                     // Make const size by transforming `(?<=a|bb)` to `(?<=a)|(?<=bb)`
+                    // (atomic as a whole: a later alternative is not tried once one matched)
                     let alternatives = &inner.children;
+                    self.b.add(Insn::BeginAtomic);
                     self.compile_alt(alternatives.len(), |compiler, i| {
                         let alternative = &alternatives[i];
                         compiler.compile_positive_lookaround(alternative, la)
-                    })
+                    })?;
+                    self.b.add(Insn::EndAtomic);
+                    Ok(())
                 } else {
                     self.compile_positive_lookaround(inner, la)
                 }
@@ -423,7 +427,18 @@ impl Compiler {
     fn compile_positive_lookaround(&mut self, inner: &Info<'_>, la: LookAround) -> Result<()> {
         let save = self.b.newsave();
         self.b.add(Insn::Save(save));
+        // A look-around is atomic: once its body has matched, alternatives inside the body
+        // must not be retried when what follows the look-around fails. A body that is
+        // delegated as a whole cannot leave any alternatives behind; a body compiled to VM
+        // instructions can, so it is wrapped like an atomic group.
+        let atomic = inner.hard;
+        if atomic {
+            self.b.add(Insn::BeginAtomic);
+        }
         self.compile_lookaround_inner(inner, la)?;
+        if atomic {
+            self.b.add(Insn::EndAtomic);
+        }
         self.b.add(Insn::Restore(save));
         Ok(())
     }
